@@ -20,6 +20,7 @@ const (
 	SpMap     = "map"     // map[B<i>]uint64
 	SpGeneric = "generic" // G[B<i>]
 	SpExt     = "ext"     // ext.V<i>
+	SpTime    = "time"    // time.Time (a type the generated code has locals of: startTime)
 )
 
 // Pred is a cff.Predicate.
